@@ -12,7 +12,8 @@ RECURSIVE CountLines(_, _, _)
 CountLines(lines, k, acc) ==      \* acc = [ins, dir]
   IF k > Len(lines) THEN acc
   ELSE LET f == lines[k].f IN
-       IF f = << >> THEN CountLines(lines, k + 1, acc)                         \* blank or comment: ReadBlank / ReadComment
+       IF f = << >> /\ lines[k].comma = 0 THEN CountLines(lines, k + 1, acc)     \* blank or comment: ReadBlank / ReadComment
+       ELSE IF f = << >> THEN CountLines(lines, k + 1, [acc EXCEPT !.ins = @ + 1]) \* nothing but commas: not blank, not a comment - the read must fail
        ELSE IF f[1] = "end" THEN [acc EXCEPT !.dir = @ + 1]                    \* ReadEnd: the end marker
        ELSE IF f[1] = "org" THEN CountLines(lines, k + 1, [acc EXCEPT !.dir = @ + 1])   \* ReadOrg
        ELSE CountLines(lines, k + 1, [acc EXCEPT !.ins = @ + 1])               \* ReadInstr (or the read must fail)
